@@ -66,6 +66,9 @@ def step (n : Naming) (ws : List String) : Naming × String :=
   | "del" :: rest =>
     let i := instOf rest
     ((n.removeInstance (parseSKey (kv rest "svc")) i.short (some i.clientId) now).1, "ok")
+  | "raftrm" :: rest =>
+    let i := instOf rest
+    (n.raftRemove (parseSKey (kv rest "svc")) i.short now, "ok")
   | "rmclient" :: c :: _ =>
     let n2 := n.removeClient c now
     (n2, s!"ok before={allInstances n} after={allInstances n2}")
@@ -247,6 +250,12 @@ def specOp (s0 : SpecSt) (op ans : List String) : SpecSt × String :=
         else none
     (s, match bad with | some m => "spec FAIL " ++ m | none => "spec ok")
   | "del" :: _ => ({ s with ruled := false }, "-")
+  | "raftrm" :: rest =>
+    -- the committed removal of a persistent record: an instance that is ephemeral now must stay (C12: no registered
+    -- address is missing); judged on the next `all` through the time line (the entry is kept if it is ephemeral)
+    let key := s!"{kv rest "svc"}@{kv rest "ip"}:{kv rest "port"}"
+    let eph := match s.tracked.find? (·.key == key) with | some t => t.http || t.cand | none => false
+    (if eph then s else { s with tracked := s.tracked.filter (·.key != key) }, "-")
   | "range" :: _ =>
     -- this node now owns every key: replicated HTTP instances fall under its heartbeat supervision
     ({ s with tracked := s.tracked.map fun t => if t.cand then { t with http := true } else t }, "-")
